@@ -538,6 +538,9 @@ pub struct Lim {
     pub named: u8,
 }
 
+/// limits at and beyond the i32 / u32 boundaries: a `usize` limit that is cast to a narrower type wraps there
+pub const HUGE_LIMITS: [usize; 6] = [(1 << 31) - 1, 1 << 31, (1 << 32) - 1, 1 << 32, (1 << 32) + 5, usize::MAX];
+
 impl Lim {
     pub fn parse(s: &str) -> Option<Lim> {
         // `default` / `minimal`: the real constructors are used (see `options`), so their constants are tied too
